@@ -6,6 +6,7 @@ package main
 
 import (
 	"bytes"
+	crand "crypto/rand"
 	"encoding/json"
 	"fmt"
 	"time"
@@ -302,7 +303,57 @@ func init() {
 					}
 				}
 			}
+			if prop == "C10" {
+				entropyFailureConstructors(rep, lw)
+			}
 			return nil
+		}
+	}
+}
+
+// entropyFailureConstructors: a constructor draws the nonce itself when the caller gives none; when the entropy
+// source cannot deliver, it refuses - it never hands out tokens whose nonce is constant (or shorter than 12 bytes).
+func entropyFailureConstructors(rep *Report, lw *lifeWorld) {
+	old := crand.Reader
+	defer func() { crand.Reader = old }()
+	cmd := command.Command("/a/b")
+	for _, avail := range []int{0, 5, 11} {
+		for _, ctor := range []string{"delegation.New", "delegation.Root", "invocation.New"} {
+			build := func() ([]byte, error) {
+				crand.Reader = &starvedEntropy{n: avail}
+				defer func() { crand.Reader = old }()
+				switch ctor {
+				case "delegation.New":
+					t, err := delegation.New(lw.I.id, lw.O.id, cmd, policy.Policy{}, delegation.WithSubject(lw.S.id))
+					if err != nil {
+						return nil, err
+					}
+					return t.Nonce(), nil
+				case "delegation.Root":
+					t, err := delegation.Root(lw.I.id, lw.O.id, cmd, policy.Policy{})
+					if err != nil {
+						return nil, err
+					}
+					return t.Nonce(), nil
+				}
+				t, err := invocation.New(lw.I.id, lw.S.id, cmd, []cid.Cid{missingCid(3)})
+				if err != nil {
+					return nil, err
+				}
+				return t.Nonce(), nil
+			}
+			rep.Evaluations++
+			cs := map[string]any{"constructor": ctor, "entropy_bytes_available": avail}
+			n1, e1 := build()
+			n2, e2 := build()
+			if e1 != nil || e2 != nil {
+				continue // refused
+			}
+			if len(n1) < 12 || len(n2) < 12 {
+				rep.violation(cs, "an error or a nonce of at least 12 bytes", fmt.Sprintf("nonces of %d and %d bytes", len(n1), len(n2)), "the entropy source failed: a token with a short nonce was handed out")
+			} else if bytes.Equal(n1, n2) {
+				rep.violation(cs, "an error", "two tokens with the same nonce", "the entropy source failed while the nonce was drawn: tokens are handed out with a constant nonce")
+			}
 		}
 	}
 }
